@@ -81,6 +81,17 @@ def gen_case(rng, size="m", named_p=0.3):
             ops.append({"op": "block", "state": st, "kind": kind, "dirty": dirty})
             if kind != "same":
                 cur = st
+        elif r < 0.745:
+            # a submission racing a block: validation before, insertion after the notification; the block
+            # typically consumes exactly the submitted nonce (a tx of the same account included elsewhere)
+            ti = rng.randrange(len(txs))
+            st = [list(x) for x in cur]
+            a = txs[ti]["acc"]
+            if rng.random() < 0.7:
+                st[a][0] = max(st[a][0], txs[ti]["nonce"] - rng.choice([0, 0, 0, 1]))
+            kind = rng.choice(["next", "next", "next", "jump"])
+            ops.append({"op": "putrace", "tx": ti, "state": st, "kind": kind, "dirty": [a] if rng.random() < 0.8 else []})
+            cur = st
         elif r < 0.82:
             ops.append({"op": "remove", "tx": rng.randrange(len(txs))})
         elif r < 0.86:
@@ -122,7 +133,7 @@ def block_ids(case):
     best, cid, nxt = 1, 0, 2
     out = []
     for op in case["ops"]:
-        if op["op"] != "block":
+        if op["op"] not in ("block", "putrace"):
             out.append(None)
             continue
         kind = op["kind"]
@@ -164,6 +175,10 @@ def coq_case(case, obs):
             e = "EExist %d%%nat" % op["tx"]
         elif kind == "block":
             e = "EBlock %d %d %d %s %s" % (bi[0], bi[1], bi[2], st(op["state"]), lN(op["dirty"]))
+        elif kind == "putrace":
+            if "order:put-first" in (o.get("extra") or []):
+                break               # the lock was handed over in the other order: compare the prefix only
+            e = "ERacePut %d%%nat %d %d %d %s %s" % (op["tx"], bi[0], bi[1], bi[2], st(op["state"]), lN(op["dirty"]))
         elif kind == "evict":
             e = "EEvict %s" % lN(op["accs"])
         elif kind == "unconf":
@@ -219,7 +234,8 @@ def pool_predicate(case, o, what):
     if orph != o["orphan"]:
         bad.append(("orphan-counter", {"orphan": o["orphan"], "held": orph}))
     for x in o.get("extra") or []:
-        bad.append(("engine-note", x))
+        if not x.startswith("order:"):
+            bad.append(("engine-note", x))
     return bad
 
 
@@ -241,7 +257,7 @@ def step_predicates(case, obs):
                 if l is None or ns != [l["base"] + 1 + j for j in range(len(ns))] or (len(ns) != l["ready"] and not limited) \
                         or got != l["txs"][:len(got)]:
                     fails.append(("get-not-gapfree-from-base", "get", si, {"acc": a, "nonces": ns, "list": l}))
-        if op["op"] == "block":
+        if op["op"] in ("block", "putrace"):
             bi = bids[si]
             if bi[3] != "same":
                 cur = [list(x) for x in op["state"]]
@@ -252,11 +268,104 @@ def step_predicates(case, obs):
                     continue
                 for i in l["txs"]:
                     if i >= 0 and case["txs"][i]["nonce"] <= cur[a][0]:
-                        fails.append(("stale-after-notification", "block:" + bi[3], si,
+                        fails.append(("stale-after-notification", op["op"] + ":" + bi[3], si,
                                       {"acc": a, "state_nonce": cur[a][0], "tx": case["txs"][i]}))
                 if l["base"] != cur[a][0]:
-                    fails.append(("base-not-refreshed", "block:" + bi[3], si, {"acc": a, "base": l["base"], "state": cur[a]}))
+                    fails.append(("base-not-refreshed", op["op"] + ":" + bi[3], si, {"acc": a, "base": l["base"], "state": cur[a]}))
     return fails
+
+
+# ------------------------------------------------------------------------- list level
+def gen_list_case(rng):
+    base = [rng.choice([0, 1, 3, 7]), rng.choice([100, 100, 40])]
+    ops, nid, curb = [], 0, base[0]
+    held = []
+    for _ in range(rng.randrange(5, 30)):
+        r = rng.random()
+        if r < 0.6:
+            nid += 1
+            n = max(0, curb + rng.choice([-2, -1, 0, 0, 1, 1, 1, 2, 2, 3, 3, 4, 5, 7]))
+            ops.append({"op": "put", "id": nid, "nonce": n, "amount": rng.choice([1, 1, 5, 30, 60, 120])})
+            held.append(nid)
+        elif r < 0.72:
+            ops.append({"op": "remove", "id": rng.choice(held) if held and rng.random() < 0.8 else 9000 + nid, "nonce": 1, "amount": 1})
+        elif r < 0.88:
+            curb = max(0, curb + rng.choice([-2, -1, 0, 0, 1, 1, 2, 3]))
+            ops.append({"op": "filter", "nonce": curb, "bal": rng.choice([100, 100, 50, 10, 1000])})
+        else:
+            ops.append({"op": "get"})
+    return {"base": base, "ops": ops}
+
+
+def coq_list_case(c, obs):
+    steps = []
+    for op, o in zip(c["ops"], obs):
+        if op["op"] == "put":
+            e = "LPut (mkTx %d 0 0 %d %d%%Z)" % (op["id"], op["nonce"], op["amount"])
+        elif op["op"] == "remove":
+            e = "LRemove %d" % op["id"]
+        elif op["op"] == "filter":
+            e = "LFilter (mkSt %d %d%%Z)" % (op["nonce"], op["bal"])
+        else:
+            e = "LGet"
+        steps.append("(%s,(%d,%s,%d,%d%%nat,%s,%s,%s))" % (e, RES.get(o["res"], 99), vf.coq_Z(o["diff"]) + "%Z", o["base"], o["ready"],
+                                                            lN(o["txs"]), lN(o["removed"]), lN(o["got"])))
+    return "(mkSt %d %d%%Z,[%s])" % (c["base"][0], c["base"][1], ";\n ".join(steps))
+
+
+def list_predicate(c, obs):
+    bad = []
+    for si, (op, o) in enumerate(zip(c["ops"], obs)):
+        ns = o["nonces"]
+        if any(x >= y for x, y in zip(ns, ns[1:])):
+            bad.append(("list:not-strictly-sorted", si, o))
+        if ns and ns[0] <= o["base"]:
+            bad.append(("list:nonce-not-above-base", si, o))
+        r = 0
+        while r < len(ns) and ns[r] == o["base"] + r + 1:
+            r += 1
+        if r != o["ready"]:
+            bad.append(("list:ready-not-maximal-gapfree-prefix", si, o))
+        if op["op"] == "get" and o["got"] != o["txs"][:o["ready"]]:
+            bad.append(("list:get-not-ready-prefix", si, o))
+    return bad
+
+
+def run_list_engine(ctx, binp, cases):
+    fin = os.path.join(ctx.workdir, "list.in")
+    fout = os.path.join(ctx.workdir, "list.out")
+    with open(fin, "w") as f:
+        for c in cases:
+            f.write(json.dumps(c) + "\n")
+    rc, log = ctx.run_bin(binp, ["-test.run", "TestVerifC13List"], env={"VERIF_IN": fin, "VERIF_OUT": fout}, timeout=600)
+    if rc != 0:
+        raise RuntimeError("txList engine failed:\n" + log[-3000:])
+    obs = [json.loads(l) for l in open(fout)]
+    if len(obs) != len(cases):
+        raise RuntimeError("txList engine: %d observations for %d cases" % (len(obs), len(cases)))
+    return obs
+
+
+def eval_list_cases(ctx, cases, obs):
+    res = []
+    shard = 400
+    for s0 in range(0, len(cases), shard):
+        items = [coq_list_case(c, o) for c, o in zip(cases[s0:s0 + shard], obs[s0:s0 + shard])]
+        txt = ["From Coq Require Import ZArith NArith List Bool.",
+               "From Verif Require Import Mempool.Model Mempool.Eval.", "Import ListNotations.", "Open Scope N_scope.",
+               "Definition cases : list lcase := [%s]." % ";\n".join(items),
+               "Definition M := Eval vm_compute in map lcase_bad_step cases.", "Print M."]
+        rc, out = ctx.coq_eval("list_%d" % (s0 // shard), "\n".join(txt))
+        flat = " ".join(out.split())
+        m = re.search(r"M = (\[[^\]]*\]|nil)", flat)
+        if rc != 0 or not m:
+            return None, out
+        body = m.group(1)
+        vals = [] if body in ("nil", "[]") else [int(x) for x in re.findall(r"\d+", body)]
+        if len(vals) != len(items):
+            return None, out
+        res += vals
+    return res, ""
 
 
 # --------------------------------------------------------------------------------- run
@@ -376,6 +485,24 @@ def run(ctx):
                  "impl_before": obs[ci][si]})
     nsteps = sum(len(c["ops"]) for c in cases)
 
+    # ---- list level: a real txList driven directly (nonces at, below and above the base)
+    lcases = [gen_list_case(rng) for _ in range(150 if quick else 4000)]
+    lobs = run_list_engine(ctx, binp, lcases)
+    for ci, (c, o) in enumerate(zip(lcases, lobs)):
+        for name, si, det in list_predicate(c, o):
+            pred_fail.append((name, "txlist", -1 - ci, si, det))
+    lbad, lout = eval_list_cases(ctx, lcases, lobs)
+    if lbad is None:
+        corr_broken = corr_broken or ("txList correspondence could not be evaluated", lout[-2000:])
+    else:
+        ld = [(ci, b - 1) for ci, b in enumerate(lbad) if b]
+        if ld and not corr_broken:
+            ci, si = min(ld, key=lambda x: (x[1], len(lcases[x[0]]["ops"])))
+            corr_broken = ("txList model/implementation differ at operation %d (%d differing cases)" % (si, len(ld)),
+                           {"case": lcases[ci], "step": si, "impl": lobs[ci][si]})
+    nsteps += sum(len(c["ops"]) for c in lcases)
+    ctx.cov["list_level_cases"] = len(lcases)
+
     # ---- concurrent runs (support for the atomicity assumption)
     conc_fail = []
     nconc = 4 if quick else 120
@@ -409,7 +536,7 @@ def run(ctx):
     shapes = set()
     for c, o in zip(cases, obs):
         for op, ob in zip(c["ops"], o[1:]):
-            key = op["op"] + (":" + op["kind"] if op["op"] == "block" else "") + "/" + ob["res"]
+            key = op["op"] + (":" + op["kind"] if op["op"] in ("block", "putrace") else "") + "/" + ob["res"]
             kinds[key] = kinds.get(key, 0) + 1
             shapes.add((key, len(ob["lists"]), ob["orphan"] > 0, ob["len"]))
     ctx.cov["distinct_nontrivial"] = len(shapes)
@@ -452,7 +579,7 @@ def run(ctx):
             continue
         reported.add(key)
         src = ccases if opk == "concurrent" else cases
-        c = src[ci]
+        c = lcases[-1 - ci] if opk == "txlist" else src[ci]
         ctx.finding(key, "pool invariant '%s' fails on the real pool after a %s operation" % (name, opk),
                     {"case": c, "step": si, "detail": det,
                      "ops_prefix": (c.get("ops") or [])[:si + 1]})
